@@ -147,9 +147,10 @@ def theorems_in(relpath):
         m = re.match(r"end\s+(\S+)", line)
         if m and ns and ns[-1] == m.group(1):
             ns.pop()
-        m = re.match(r"(?:@\[[^\]]*\]\s*)?(?:private\s+|protected\s+)?theorem\s+([\w.']+)", line)
-        if m:
-            names.append(".".join(ns + [m.group(1)]))
+        m = re.match(r"(?:@\[[^\]]*\]\s*)?(private\s+|protected\s+)?theorem\s+([\w.']+)", line)
+        if m and not (m.group(1) or "").startswith("private"):
+            # private helpers cannot be named from another file; they are audited through the theorems that use them
+            names.append(".".join(ns + [m.group(2)]))
     return names
 
 
